@@ -131,9 +131,19 @@ ModuleInvariantsHold == ModuleInvariantsBroken(st) = <<>>
 (* real code ("one implementation test per transition of the model")                            *)
 (* Rejected inputs (self-loops) are far more numerous; a sample of them (one in RejectSample, 0 = none) is  *)
 (* emitted as well, so that "stays rejected" is replayed on the real code too.                            *)
+(* "near_miss" (a goal evaluated here because it needs Inputs): a rejected input that differs in exactly one field   *)
+(* from an input the specification accepts in the same state -- the rejection hangs on that one precondition alone. *)
+NearMiss ==
+  /\ ~res'.ok
+  /\ act'.a \in AllKinds
+  /\ \E m2 \in Inputs(act'.a, st, ghost) :
+        /\ DOMAIN m2 = DOMAIN act'
+        /\ Cardinality({f \in DOMAIN m2 : m2[f] # act'[f]}) = 1
+        /\ Do(st, m2).ok
 EmitT ==
   (KeepHist /\ (IF Goals = {} THEN (st' # st \/ (RejectSample > 0 /\ ~res'.ok /\ RandomElement(1..RejectSample) = 1))
-                ELSE \E n \in Goals : Goal(n, ThisStep, ghost)))
+                ELSE \/ \E n \in Goals \ {"near_miss"} : Goal(n, ThisStep, ghost)
+                     \/ ("near_miss" \in Goals /\ NearMiss)))
      => PrintT("TRACE " \o ToJson(<<InitAct>> \o hist'))
 
 (* generators: write the input history of every behaviour of length GenDepth *)
